@@ -12,6 +12,7 @@ open Dataflow
 open Driver
 
 module L = Stdlib.List
+module String = Stdlib.String
 
 (* ---------- s-expressions ---------- *)
 type sx = A of string | S of sx list
@@ -269,6 +270,26 @@ let handle (line : string) : unit =
                                pr ",\"result\":"; pres x.x_result; pr "}") log;
      pr ",\"flags\":"; plist pbool (frag_flags (L.map fst nodes));
      pr "}"
+   | S (A "fsstore" :: f) ->
+     let aval_ = function
+       | S [A "good"; n] -> FsStore.AGood (nat_ n) | S [A "ponly"; n] -> FsStore.APickleOnly (nat_ n)
+       | S [A "bad"; n] -> FsStore.AUnserialisable (nat_ n) | _ -> failwith "aval" in
+     let fmt_ x = match atom x with "pickle" -> FsStore.FPickle | "json" -> FsStore.FJson | _ -> failwith "fmt" in
+     let op_ = function
+       | S [A "save"; c; S i; fm; v] -> FsStore.OpSave (nat_ c, L.map nat_ i, fmt_ fm, aval_ v)
+       | S [A "load"; c; S i] -> FsStore.OpLoad (nat_ c, L.map nat_ i)
+       | _ -> failwith "op" in
+     let paval = function
+       | FsStore.AGood n -> pr "[\"good\","; pi (int_of_nat n); pr "]"
+       | FsStore.APickleOnly n -> pr "[\"ponly\","; pi (int_of_nat n); pr "]"
+       | FsStore.AUnserialisable n -> pr "[\"bad\","; pi (int_of_nat n); pr "]" in
+     let pres = function
+       | FsStore.RSaved -> pr "[\"saved\"]" | FsStore.RAlreadyExists -> pr "[\"exists\"]"
+       | FsStore.RDumpFailed -> pr "[\"dumpfailed\"]" | FsStore.RLoaded v -> pr "[\"loaded\","; paval v; pr "]"
+       | FsStore.RDoesNotExist -> pr "[\"missing\"]" | FsStore.RLoadBroken -> pr "[\"broken\"]" in
+     pr "{\"results\":"; plist pres (fsstore_case (L.map op_ (field "ops" f)));
+     pr ",\"ext_pickle\":"; plist (fun c -> pi (int_of_nat c)) (fsstore_ext true);
+     pr ",\"ext_json\":"; plist (fun c -> pi (int_of_nat c)) (fsstore_ext false); pr "}"
    | S (A "build" :: f) ->
      let nodes = L.map node_ (field "nodes" f) in
      pgraph (built_of (L.map fst nodes))
